@@ -64,9 +64,25 @@ type vSweepFake struct {
 	ncount  int
 	npage   int
 	mountOf map[int][]int // server -> mounts
+	active  []int         // servers in the keep_services list (nil: 1..scn.S)
+	run     int           // > 0: number of the run within a sequence (logged with every event)
+}
+
+func (f *vSweepFake) servers() []int {
+	if f.active != nil {
+		return f.active
+	}
+	var out []int
+	for s := 1; s <= f.scn.S; s++ {
+		out = append(out, s)
+	}
+	return out
 }
 
 func (f *vSweepFake) log(ev map[string]interface{}) {
+	if f.run > 0 {
+		ev["run"] = f.run
+	}
 	f.mu.Lock()
 	f.events = append(f.events, ev)
 	f.mu.Unlock()
@@ -143,7 +159,7 @@ func (f *vSweepFake) RoundTrip(req *http.Request) (*http.Response, error) {
 		switch path {
 		case "/arvados/v1/keep_services":
 			var items []map[string]interface{}
-			for s := 1; s <= f.scn.S; s++ {
+			for _, s := range f.servers() {
 				items = append(items, map[string]interface{}{"uuid": vSrvUUID(s), "service_host": vSrvHost(s),
 					"service_port": 25107, "service_ssl_flag": false, "service_type": "disk", "read_only": false})
 			}
@@ -180,7 +196,7 @@ func (f *vSweepFake) RoundTrip(req *http.Request) (*http.Response, error) {
 		return vHTTPResp(req, 404, vErrBody("not found")), nil
 	}
 	srv := 0
-	for s := 1; s <= f.scn.S; s++ {
+	for _, s := range f.servers() {
 		if host == fmt.Sprintf("%s:25107", vSrvHost(s)) {
 			srv = s
 		}
